@@ -154,10 +154,12 @@ func scenarios() []e3.Scenario {
 					panic(err)
 				}
 				pc := e.W.Peer
-				e.Thread("sender", func() {
+				// the sender is first in the canonical order: one departure anywhere between its pre-write
+				// gate and the write boundary lets the Deselect.req land in between
+				e.Thread("1sender", func() {
 					_, sendErr = e.W.C.SendDataMessage(context.Background(), 1, 1, true, secs2.A("x"))
 				})
-				e.Thread("peer", func() {
+				e.Thread("2peer", func() {
 					_, _ = pc.Write(peer.Ctrl(peer.SDeselectReq, 0xFFFF, 0, 0, 0x0D5E).Bytes())
 					_ = pc.SetReadDeadline(time.Now().Add(10 * time.Second))
 					if f, ok := readData(pc); ok { // the primary, if it was written: answer it
